@@ -4,7 +4,7 @@
    dx = (b - a)/n_segments, so that t_p = a (domain_min) and t_{n_segments+p} = b (domain_max). *)
 From Coq Require Import List Reals QArith.
 From Coquelicot Require Import Coquelicot.
-From FDAV Require Import Base.Num Base.Vec Model.Basis Model.Poly Lemmas.Vec Lemmas.Basis Lemmas.Legendre Lemmas.Ortho.
+From FDAV Require Import Base.Num Base.Vec Model.Basis Model.Poly Model.Simpson Lemmas.Vec Lemmas.Basis Lemmas.Legendre Lemmas.Ortho Lemmas.Simpson.
 Import ListNotations.
 Local Open Scope R_scope.
 
@@ -123,3 +123,12 @@ Example C18_example :
   map (fun row => nth 0 row 0) (bspline_basis opsQ 0 1 2 2 [1]) = [0; 0; 1#2; 1#2] /\
   legendre opsQ 2 (1#2) == -1 # 8.
 Proof. split; vm_compute; reflexivity. Qed.
+
+(* the normalisation option: a function divided by the root r of its squared Simpson norm (r = oracle
+   value with r^2 = simpson(x, f^2), checked exactly by the tie) has unit Simpson norm — on ANY grid,
+   for the rule exactly as scipy computes it (Model/Simpson.v) *)
+Theorem C18_normalised_unit_simpson_norm : forall x f r, length f = length x -> (r <> 0)%R ->
+  (r * r = simpson opsR x (vmul opsR f f))%R ->
+  (simpson opsR x (vmul opsR (vscale opsR (/ r) f) (vscale opsR (/ r) f)) = 1)%R.
+Proof. exact simpson_normalised_unit. Qed.
+Print Assumptions C18_normalised_unit_simpson_norm.
